@@ -92,6 +92,19 @@ int main(int argc, char** argv){
     }else if (!strcmp(integ, "trace")){
         r->integrator = REB_INTEGRATOR_TRACE; r->ri_trace.peri_mode = o1;
     }else return 2;
+    if (!strcmp(argv[5], "recalc")){
+        /* safe_mode 0; the recalculate-coordinates flag is raised three times while unsynchronized: WHFast must synchronize each time */
+        if (!strcmp(integ, "whfast")) r->ri_whfast.safe_mode = 0;
+        reb_simulation_step(r); reb_simulation_step(r);
+        for (int k=0;k<3;k++){
+            r->ri_whfast.recalculate_coordinates_this_timestep = 1;
+            reb_simulation_step(r);
+        }
+        reb_simulation_synchronize(r);
+        fprintf(stderr, "STATE %.17g %.17g %.17g\n", r->particles[1].x, r->particles[1].y, r->t);
+        reb_simulation_free(r);
+        return 0;
+    }
     reb_simulation_step(r);
     if (unsync){
         reb_simulation_step(r);
